@@ -2,7 +2,7 @@ SPECIFICATION GenSpec
 CONSTANTS
   Procs = {"g1", "g2"}
   FastTypes = {"A", "Q"}
-  SlowTypes = {"H"}
+  SlowTypes = {"H", "J"}
   QType = "Q"
   Sides = {"enc"}
   Variant = "norace"
